@@ -1,15 +1,7 @@
 #![allow(dead_code)]
 //! `vh <ID> <quick|thorough>` | `vh <ID> --replay <file>` | `vh selftest`
-mod clock;
-mod hist;
-mod model;
-mod multi;
-mod props;
-mod render;
-mod runner;
-mod vterm;
-
-use runner::Tier;
+use vh::runner::Tier;
+use vh::{clock, props, runner, vterm};
 
 fn main() {
     let args: Vec<String> = std::env::args().collect();
